@@ -293,7 +293,8 @@ class Session:
         split_g = copy.deepcopy(g) if split else None
         buf = io.StringIO()
         with contextlib.redirect_stdout(buf):
-            ret = g.optimize(tol=tol, max_iter=m, fix_first_pose=fix_first, verbose=verbose)
+            # (the recorded call passes its arguments by position every other time: the parameter order is part of the public signature)
+            ret = g.optimize(tol, m, fix_first, verbose) if self.seq % 2 else g.optimize(tol=tol, max_iter=m, fix_first_pose=fix_first, verbose=verbose)
         out = buf.getvalue()
         rows = len([ln for ln in out.splitlines() if re.match(r'^\s*\d+\s+\S', ln)]) if verbose else -1
         n = ret.num_iterations
